@@ -36,7 +36,7 @@ def main():
             "guard": "tera_verif",
             "enable": "RUSTFLAGS='--cfg tera_verif' (set in /verif/harness/.cargo/config.toml; the harness crate depends on /repo/tera by path)",
             "baseline_off_cmd": "cd /repo && cargo nextest run --workspace --no-fail-fast --offline",
-            "source_commits": ["62cb163"],
+            "source_commits": ["62cb163", "1c6a8c8", "defa67e"],
             "add_only": True,
         },
         "engines": [{"name": "rocq-proof+correspondence", "path": "/verif/coq + /verif/harness + /verif/tools/check",
